@@ -863,6 +863,11 @@ class Engine:
                 member = z3.Select(it.term, kq)
                 item = Val(kq, it.ty.elem)
                 qty = it.ty.elem
+            elif isinstance(it, Val) and isinstance(it.ty, MapT):      # iterating a dict = iterating its keys
+                kq = z3.Const(fresh_name("sck"), it.ty.key.sort())
+                member = it.ty.opt.is_some(z3.Select(it.term, kq))
+                item = Val(kq, it.ty.key)
+                qty = it.ty.key
             else:
                 raise Unsupported(f"set comprehension over {it!r}")
             s2 = s.fork()
